@@ -244,6 +244,12 @@ package sizes
 //@ func (*table).formatRow
 //@   requires t.indent >= 0
 //@   pure
+// C11: the row shows, in this order, the name, the citation, the rendered
+// value, its unit and the concern marker it was given -- in the documented
+// column layout.
+//@   call 0 fmt.Fprintf assert arg_1 == "| %s%s%s%s | %5s %-3s | %-30s |\n" && len(arg_2) == 7
+//@   call 0 fmt.Fprintf assert dyntype(arg_2[1], "string") && same(unbox(arg_2[1], "string"), name) && dyntype(arg_2[3], "string") && same(unbox(arg_2[3], "string"), citation)
+//@   call 0 fmt.Fprintf assert dyntype(arg_2[4], "string") && same(unbox(arg_2[4], "string"), valueString) && dyntype(arg_2[5], "string") && same(unbox(arg_2[5], "string"), unitString) && dyntype(arg_2[6], "string") && same(unbox(arg_2[6], "string"), levelOfConcern)
 
 // A row is written iff the item is shown (C11), and the footnote table stays
 // well-formed (C19).
@@ -280,6 +286,7 @@ package sizes
 //@ property C07: (*table).formatRow
 // ... nor for any refgroup name, however long (C19: well-formed for any names)
 //@ property C19: (*table).formatRow
+//@ property C11: (*table).formatRow
 //@ property C05: (*item).levelOfConcern (*item).MarshalJSON
 //@ property C09: (*TreeSize).addDescendent (*TreeSize).addBlob (*TreeSize).addLink (*TreeSize).addSubmodule (*HistorySize).recordBlob (*HistorySize).recordTree (*HistorySize).recordCommit (*HistorySize).recordTag
 
@@ -358,6 +365,7 @@ package sizes
 //@   ensures old(has(g.treeSizes, oid)) ==> result1 && result0 == old(g.treeSizes[oid]) && unchanged_all()
 //@   ensures !old(has(g.treeSizes, oid)) ==> !result1 && has(g.treeRecords, oid)
 //@   ensures !old(has(g.treeSizes, oid)) && old(has(g.treeRecords, oid)) ==> g.treeRecords[oid] == old(g.treeRecords[oid]) && len(g.treeRecords[oid].listeners) == old(len(g.treeRecords[oid].listeners)) + 1
+//@   ensures !old(has(g.treeSizes, oid)) && !old(has(g.treeRecords, oid)) ==> len(g.treeRecords[oid].listeners) == 1
 //@   ensures forall o OID :: o != oid ==> has(g.treeRecords, o) == old(has(g.treeRecords, o)) && g.treeRecords[o] == old(g.treeRecords[o])
 
 // Exactly one recordTree per finalised tree: the census fields move by exactly
@@ -430,6 +438,7 @@ package sizes
 //@   requires !has(g.treeSizes, oid)
 //@   modifies everything
 //@   call 0 initialize as ini
+//@   call 0 initialize assert arg_1 == g && arg_2 == oid && arg_3 == tree && has(g.treeRecords, oid) && g.treeRecords[oid] == arg_0
 //@   ensures ini_reached && result == ini
 
 // ---------------------------------------------------------------- graph.go: tags (C01, C03)
@@ -446,6 +455,10 @@ package sizes
 //@   modifies map(g.tagRecords), fieldmem(tagRecord.listeners)
 //@   ensures old(has(g.tagSizes, oid)) ==> result1 && result0 == old(g.tagSizes[oid]) && unchanged_all()
 //@   ensures !old(has(g.tagSizes, oid)) ==> !result1 && has(g.tagRecords, oid)
+// the listener is filed with the record whether the record existed or not (a
+// listener that is dropped leaves the waiting tag pending for ever: C03, C09)
+//@   ensures !old(has(g.tagSizes, oid)) && old(has(g.tagRecords, oid)) ==> g.tagRecords[oid] == old(g.tagRecords[oid]) && len(g.tagRecords[oid].listeners) == old(len(g.tagRecords[oid].listeners)) + 1
+//@   ensures !old(has(g.tagSizes, oid)) && !old(has(g.tagRecords, oid)) ==> len(g.tagRecords[oid].listeners) == 1
 //@   ensures forall o OID :: o != oid ==> has(g.tagRecords, o) == old(has(g.tagRecords, o)) && g.tagRecords[o] == old(g.tagRecords[o])
 
 //@ func (*Graph).finalizeTagSize
@@ -481,6 +494,11 @@ package sizes
 //@   option assume-pre A-GIT-REVLIST
 //@   requires !has(g.tagSizes, oid)
 //@   modifies everything
+// the record that is initialised is the one filed under this tag's id, and it
+// is initialised with this id and this tag
+//@   call 0 tagRecord).initialize as ini
+//@   call 0 tagRecord).initialize assert arg_1 == g && arg_2 == oid && arg_3 == tag && has(g.tagRecords, oid) && g.tagRecords[oid] == arg_0
+//@   ensures ini_reached
 
 // ---------------------------------------------------------------- graph.go: references (C07)
 //@ func (*HistorySize).recordReferenceGroup
@@ -544,6 +562,21 @@ package sizes
 //@   ensures rq0_reached && rq0 != nil ==> result != nil
 //@   ensures rq1_reached && rq1 != nil ==> result != nil
 //@   ensures rq2_reached && rq2 != nil ==> result != nil
+
+// The goroutines around the two feeders (C10 "never hangs"): whatever the
+// feeder returns, the iterator's input is closed exactly once -- this is what
+// lets git finish and the consumer loop see the end of the stream -- and the
+// verdict is sent (once; errChan has room for it).
+//@ func ScanRepositoryUsingGraph$1
+//@   modifies everything
+//@   ghost nClose counts ObjectIter).Close
+//@   ghost nFeed counts ScanRepositoryUsingGraph$1$1
+//@   ensures nClose == 1 && nFeed == 1
+//@ func ScanRepositoryUsingGraph$2
+//@   modifies everything
+//@   ghost nClose counts BatchObjectIter).Close
+//@   ghost nFeed counts ScanRepositoryUsingGraph$2$1
+//@   ensures nClose == 1 && nFeed == 1
 
 // What git delivers is not ours to prove: each listed tree/tag exactly once
 // (A-GIT-REVLIST), parents before children and the tree of a commit before the
@@ -654,7 +687,7 @@ package sizes
 //@   ensures result1 == nil ==> nRootSeen == len(roots)
 
 //@ property C01: ScanRepositoryUsingGraph ScanRepositoryUsingGraph$1$1 ScanRepositoryUsingGraph$2$1 NewGraph (*Graph).HistorySize
-//@ property C10: ScanRepositoryUsingGraph ScanRepositoryUsingGraph$1$1
+//@ property C10: ScanRepositoryUsingGraph$1 ScanRepositoryUsingGraph$2 ScanRepositoryUsingGraph ScanRepositoryUsingGraph$1$1
 //@ property C18: ScanRepositoryUsingGraph
 //@ property C07: ScanRepositoryUsingGraph
 
